@@ -281,6 +281,9 @@ Section Acr.
 End Acr.
 
 (* ---------------------------------------------------------------- azimuth / elevation *)
+Lemma clip1_id x : -1 <= x <= 1 -> clip1 x = x.
+Proof. intros [H1 H2]. unfold clip1. rewrite Rmin_right by exact H2. apply Rmax_right. exact H1. Qed.
+
 Lemma az_el_are_angles_in_triad lat lon p o rho az el :
   0 < rho -> - PI < az <= PI -> - (PI / 2) < el < PI / 2 ->
   vsub o p = vscale rho (mvec (enu2trs lat lon) (V3 (cos el * sin az) (cos el * cos az) (sin el))) ->
@@ -307,7 +310,7 @@ Proof.
   assert (HU : dot w (enu_up lat lon) = sin el).
   { unfold enu_up. rewrite <- mvec_ez. unfold w. rewrite orthogonal_preserves_dot by exact HO. unfold x. vec3. }
   assert (Hel' : elevation lat lon p o = el).
-  { unfold elevation. rewrite Hdir, HU. apply asin_sin. lra. }
+  { unfold elevation. rewrite Hdir, HU. rewrite clip1_id by (pose proof (SIN_bound el); lra). apply asin_sin. lra. }
   split; [|split].
   - unfold azimuth. rewrite Hdir, HE, HN. apply atan2_polar; [|exact Haz]. apply cos_gt_0; lra.
   - exact Hel'.
